@@ -12,10 +12,11 @@ def _dir(rng):
     if r < 0.5:
         z = rng.uniform(-1, 1)
         return rng.uniform(0, 360), math.degrees(math.asin(z))
+    # "every declination including within 5 degrees of either pole": down to 1e-8 degree from the pole, and the pole itself
     if r < 0.75:
-        return rng.uniform(0, 360), 90.0 - rng.uniform(0.001, 5.0)
+        return rng.uniform(0, 360), 90.0 - rng.choice([rng.uniform(0.001, 5.0), 10 ** rng.uniform(-8, -3), 0.0])
     if r < 0.95:
-        return rng.uniform(0, 360), -90.0 + rng.uniform(0.001, 5.0)
+        return rng.uniform(0, 360), -90.0 + rng.choice([rng.uniform(0.001, 5.0), 10 ** rng.uniform(-8, -3), 0.0])
     return rng.choice([0.0, 359.999999, 180.0]), rng.choice([0.0, 84.99, 85.01, -85.0])
 
 
@@ -25,14 +26,42 @@ def _epoch(rng, cent):
 
 
 def gen_prec(seed, shard, n):
+    """a reduction that raises is an event (clause PRECESSION_TOTAL), not a crash of the driver"""
+    rng = random.Random("prec/%s/%s" % (seed, shard))
+    for i in range(n):
+        it = _prec_one(rng)
+        while True:
+            try:
+                ev = next(it)
+            except StopIteration:
+                break
+            except Exception as ex:
+                import traceback
+                fn = traceback.extract_tb(ex.__traceback__)[-1].name
+                yield {"k": "raise", "site": fn, "fn": fn, "exc": type(ex).__name__, "in": getattr(rng, "last_in", []),
+                       "dec": (getattr(rng, "last_in", [0, 0]) or [0, 0])[1]}
+                break
+            yield ev
+
+
+def _prec_one(rng):
     from pymeeus.Angle import Angle as A
     from pymeeus.Epoch import Epoch
     from pymeeus import Coordinates as C
-    rng = random.Random("prec/%s/%s" % (seed, shard))
-    for _ in range(n):
+    for _ in range(1):
         ra, dec = _dir(rng)
+        rng.last_in = [ra, dec]
         e0, e1 = _epoch(rng, rng.choice([5, 5, 20])), _epoch(rng, rng.choice([5, 5, 20]))
         j0, j1 = e0.jde(), e1.jde()
+        if rng.random() < 0.15:
+            # a star that precession carries to within 0.01 .. 0.2 degree of a pole of the NEW equator (the start direction is
+            # only placed with the library's help: the image of such a point under the opposite reduction)
+            tdec = rng.choice([1.0, -1.0]) * (90.0 - 10 ** rng.uniform(-2.0, -0.7))
+            try:
+                pr_, pd_0 = C.precession_equatorial(Epoch(j1), Epoch(j0), A(rng.uniform(0, 360)), A(tdec))
+                ra, dec = float(pr_), float(pd_0)
+            except Exception:
+                pass
         info = {"in": [ra, dec, j0, j1], "polar": 1 if abs(dec) > 85 else 0, "dec": dec}
         # equatorial: there, back, identity, second star
         r1, d1 = C.precession_equatorial(Epoch(j0), Epoch(j1), A(ra), A(dec))
@@ -111,10 +140,14 @@ def gen_prec(seed, shard, n):
         i1, a1, ll1 = C.orbital_equinox2equinox(Epoch(j0), Epoch(j1), A(i0), A(a0), A(l0))
         i2, a2, ll2 = C.orbital_equinox2equinox(Epoch(j1), Epoch(j0), i1, a1, ll1)
         # a loop through a third equinox (any inclination, also orbits lying almost in the ecliptic)
-        i3 = rng.choice([10 ** rng.uniform(-2.5, -0.5), rng.uniform(0.3, 170.0), i0])
+        i3 = rng.choice([10 ** rng.uniform(-4.0, -0.5), 10 ** rng.uniform(-4.0, -2.0), rng.uniform(0.3, 170.0), i0])
         j2 = J2000 + rng.uniform(-5, 5) * 36525.0
         ja, jb = J2000 + rng.uniform(-5, 5) * 36525.0, J2000 + rng.uniform(-5, 5) * 36525.0
         ei, ea, el_ = A(i3), A(a0), A(l0)
+        if rng.random() < 0.5:
+            # the caller's comparison tolerance (arc second, milli-degree) is not part of the angle's value
+            tl = rng.choice([1.0 / 3600.0, 1e-3, 0.05])
+            ei.set_tolerance(tl), ea.set_tolerance(tl), el_.set_tolerance(tl)
         for (s0, s1) in ((ja, jb), (jb, j2), (j2, ja)):
             ei, ea, el_ = C.orbital_equinox2equinox(Epoch(s0), Epoch(s1), ei, ea, el_)
         yield dict(info, k="el3", i0=fx(i3), a0=fx(a0), l0=fx(l0), i2=fx(float(ei)), a2=fx(float(ea)), l2=fx(float(el_)),
